@@ -12,6 +12,6 @@ Lemma dcrit_site_refreshed : forall s, In s dcrit_sites -> snd s = true.
 Proof.
   intros s Hs. destruct (snd s) eqn:E; [reflexivity|]. exfalso.
   assert (H : In (fst (fst (fst s))) dcrit_unrefreshed).
-  { unfold dcrit_unrefreshed. apply in_map. apply filter_In. split; [exact Hs|]. rewrite E. reflexivity. }
+  { unfold dcrit_unrefreshed. apply (in_map (fun s0 : string * bool * bool * bool => fst (fst (fst s0)))). apply filter_In. split; [exact Hs|]. rewrite E. reflexivity. }
   rewrite (proj1 dcrit_all_refreshed) in H. exact H.
 Qed.
